@@ -9,8 +9,8 @@ MCDefaults == {"en", "frFR"}
 
 \* CASE: one per (default, avail);  REQ: one per request list
 EmitCases == (i = 1 /\ pass = "exact" /\ supported = <<>> /\ req = <<>>) =>
-                 PrintT(<<"CASE", ToJson([family |-> "negotiate", abs |-> [avail |-> AvailSeq(avail, default), default |-> default],
-                                          tags |-> [j \in 1..Len(AvailSeq(avail, default)) |-> Tag[AvailSeq(avail, default)[j]]]])>>)
+                 PrintT(<<"CASE", ToJson([family |-> "negotiate", abs |-> [avail |-> remaining, default |-> default],
+                                          tags |-> [j \in 1..Len(remaining) |-> Tag[remaining[j]]]])>>)
 EmitReqs == (i = 1 /\ pass = "exact" /\ supported = <<>> /\ avail = {"en"} /\ default = "en") =>
                  PrintT(<<"REQ", ToJson([req |-> req, tags |-> [j \in DOMAIN req |-> Tag[req[j]]]])>>)
 MCSpec == Init /\ [][Next]_vars /\ WF_vars(Next)
